@@ -119,6 +119,9 @@ def padded_value(target, proto):
     return b'x' * _PADDED[key]
 
 
+STRICT = [False]
+
+
 def same_value(a, b):
     """equality of a stored value with the model's (functions: by behaviour)"""
     if callable(a) and callable(b):
@@ -128,7 +131,9 @@ def same_value(a, b):
             return False
     try:
         if type(a) in (int, float, bool) and type(b) in (int, float, bool):
-            return a == b and (isinstance(a, bool) == isinstance(b, bool) or True)
+            # a dict hands back the object that was stored last: 1, 1.0 and True are equal but not interchangeable
+            # (the sqlite fallback stores a bool as an integer by design, so it is compared by value)
+            return a == b and (type(a) is type(b) or not STRICT[0])
         return bool(a == b)
     except Exception:
         return False
@@ -223,11 +228,20 @@ def gen_case_c03(rng):
         keys.append('L' * 300)     # entry directory name beyond the 255-byte limit (recorded finding)
     u = Uniq()
     ops = []
+    last = {}
     for _ in range(n):
         o = rng.choice(OPS)
         k = rng.choice(keys)
         if o in ('set', 'setdefault'):
-            ops.append([o, enc(k), enc(value_pool(b, rng, u, sized=True))])
+            v = value_pool(b, rng, u, sized=True)
+            prev = last.get(repr(k))
+            if o == 'set' and type(prev) in (int, float) and prev == prev and abs(prev) < 1e15 and rng.random() < 0.25:
+                # overwrite with an ==-equal value of another type: the entry must now hold the new object
+                v = float(prev) if type(prev) is int else (int(prev) if prev == int(prev) else prev + 1)
+                if prev in (0, 1) and rng.random() < 0.4:
+                    v = bool(prev) if type(prev) is not bool else int(prev)
+            last[repr(k)] = v
+            ops.append([o, enc(k), enc(v)])
         elif o in ('update',):
             ks = rng.sample(keys, min(len(keys), rng.choice([1, 2, 3])))
             ops.append([o, [[enc(x), enc(value_pool(b, rng, u, sized=True))] for x in ks]])
@@ -269,6 +283,7 @@ class Run03(object):
     def __init__(self, case, root):
         self.case = case
         self.b = case['backend']
+        STRICT[0] = self.b['kind'] != 'sql'
         self.root = root
         self.viol = []
         self.cnt = {}
@@ -733,6 +748,7 @@ def gen_case_c08(rng):
 class Run08(object):
     def __init__(self, case, root):
         self.case, self.b, self.root = case, case['backend'], root
+        STRICT[0] = False
         self.viol, self.cnt = [], {}
         self.arch = open_archive(self.b, root, cached=False, public=False)
         if self.b['kind'] == 'null':
@@ -778,7 +794,14 @@ class Run08(object):
             except Exception as e:
                 self.bad('operation-raised', '%s raised %s: %s' % (op[0], type(e).__name__, str(e)[:200]))
                 break
-            self.check(op[0])
+            try:
+                self.check(op[0])
+            except Exception as e:
+                if not _raised_inside_klepto(e):
+                    raise
+                # reading the cache / archive back (keys, items, a second handle) failed inside klepto
+                self.bad('archive-unreadable-after-operation', 'after %s: reading the cache and its archive back raised %s: %s'
+                         % (op[0], type(e).__name__, str(e)[:200]))
             if self.viol:
                 break
         return self
@@ -988,6 +1011,12 @@ class Run08(object):
             if not same_dict(real, self.A):
                 self.bad('parked-archive-touched', 'after %s: the switched-off archive changed: %s vs %s'
                          % (o, sorted(map(repr, real))[:6], sorted(map(repr, self.A))[:6]))
+
+
+def _raised_inside_klepto(e):
+    import traceback
+    fr = traceback.extract_tb(e.__traceback__)
+    return bool(fr) and os.sep + 'klepto' + os.sep in fr[-1].filename
 
 
 def run_case_c08(case):
